@@ -215,6 +215,65 @@ def strat_solve(tier):
     return st.one_of(one, one, two)
 
 
+THETA = {"implicit": 1.0, "backwardeuler": 1.0, "cranknicolson": 0.5, "trapezoidal": 0.5}
+
+
+def _cellwise_implicit(case, model, mesh, disc, log, res, md=None):
+    """"each cell's own value": with per-cell steps the linearised implicit step satisfies, cell by cell, dQ_i = dt_i [R(Q0) + theta J dQ]_i (theta = 1 backward Euler,
+    1/2 Crank-Nicolson).  J is rebuilt here by CENTRAL differences of the operator, column by column; flowdyn uses one-sided differences, so wherever the operator has a
+    kink (an upwind switch at u = 0, two equal wave speeds inside a min(), a limiter) the two differ by at most half the second difference of that column: that bound,
+    times |dQ_j|, is added to the tolerance - exactly, not as a guess."""
+    from vf import sim as _sim
+    q0 = log[0][1]
+    q1 = log[1][1] if len(log) > 1 else [np.array(d, dtype=float) for d in res[-1].data]
+    dtc = log[0][2]
+    if not (all(np.all(np.isfinite(x)) for x in q1) and np.all(np.isfinite(dtc)) and dtc.ndim == 1):
+        return False
+    dq = [b_ - a_ for a_, b_ in zip(q0, q1)]
+    if max(float(np.max(np.abs(x))) for x in dq) == 0:
+        return False
+    neq, n = len(q0), len(q0[0])
+    qnat, _a = _sim.state_scales(md, cases.prim_from_cons(md, q0))
+    for k_ in range(neq):
+        mk = float(np.mean(np.abs(q0[k_])))
+        if 0.0 < mk < 1e-4 * qnat[k_]:
+            return False          # a variable that is tiny but not zero: flowdyn's difference step (1e-6 x its mean) sinks into round-off, its Jacobian is mostly noise (see C01)
+    rhs = lambda data: [np.array(x, dtype=float) for x in disc.rhs(cases.build_field(model, mesh, [np.array(a_, dtype=float, copy=True) for a_ in data]))]
+    r0 = rhs(q0)
+    if not all(np.all(np.isfinite(x)) for x in r0):
+        return False
+    jdq = [np.zeros(n) for _k in range(neq)]          # J dQ with the central Jacobian
+    kdq = [np.zeros(n) for _k in range(neq)]          # sum_j (half second difference of column j) |dQ_j|: bound of (one-sided - central) J dQ
+    adq = [np.zeros(n) for _k in range(neq)]          # sum_j |J_ij| |dQ_j|: what the ~1e-8..1e-7 relative noise of flowdyn's difference quotients acts on
+    for k_ in range(neq):
+        eps = 1e-6 * qnat[k_]
+        for j in range(n):
+            if dq[k_][j] == 0.0:
+                continue
+            qp = [x.copy() for x in q0]
+            qm = [x.copy() for x in q0]
+            qp[k_][j] += eps
+            qm[k_][j] -= eps
+            rp, rm = rhs(qp), rhs(qm)
+            if not all(np.all(np.isfinite(x)) for x in rp + rm):
+                return False
+            for i_ in range(neq):
+                jdq[i_] += (rp[i_] - rm[i_]) / (2 * eps) * dq[k_][j]
+                kdq[i_] += np.abs(rp[i_] - 2 * r0[i_] + rm[i_]) / (2 * eps) * abs(dq[k_][j])
+                adq[i_] += np.abs(rp[i_] - rm[i_]) / (2 * eps) * abs(dq[k_][j])
+    th = THETA[case["integ"]]
+    relup = max(float(np.max(np.abs(dq[k_]))) / qnat[k_] for k_ in range(neq))
+    for k_ in range(neq):
+        defect = np.abs(dq[k_] - dtc * (r0[k_] + th * jdq[k_]))
+        # 1e-3 relative (truncation of both difference quotients, ~1e-8 noise of flowdyn's Jacobian amplified by the solve), the kink bound (x2), and a floor of 1e-5 of the
+        # natural size of an update of this equation (an update that vanishes by symmetry still has a scale)
+        tolv = 1e-3 * (np.abs(dq[k_]) + dtc * (np.abs(r0[k_]) + np.abs(jdq[k_]))) + 2 * th * dtc * kdq[k_] + 1e-5 * th * dtc * adq[k_] + 1e-5 * relup * qnat[k_] + 1e-12 * qnat[k_]
+        j_ = int(np.argmax(defect - tolv))
+        require(defect[j_] <= tolv[j_], "dtlocal-implicit-cellwise", "%s with per-cell time steps: in cell %d of equation %d the update %.6g is not dt_i [R + theta J dQ]_i = %.6g (dt_i = %.4g, tolerance %.3g)"
+                % (case["integ"], j_, k_, float(dq[k_][j_]), float(dtc[j_] * (r0[k_][j_] + th * jdq[k_][j_])), float(dtc[j_]), float(tolv[j_])))
+    return True
+
+
 def check_solve(case):
     import flowdyn.integration as integ
     md, model, mesh, disc, prim, size, n = _setup(case)
@@ -242,6 +301,9 @@ def check_solve(case):
         del log[:]
     res = solver.solve(f0, case["cfl"], stop={"maxit": case["nit"]}, directives=directives)
     require(len(log) == case["nit"], "solve-step-count", "%d step calls for maxit=%d without save times" % (len(log), case["nit"]))
+    cellwise = False
+    if case["dtlocal"] and case["integ"] in THETA and "mesh2d" not in case and len(log) >= 1:
+        cellwise = _cellwise_implicit(case, model, mesh, disc, log, res, md=md)
     t = f0.time
     for k, (tk, data, dtk) in enumerate(log):
         pk = cases.prim_from_cons(md, data)
@@ -279,7 +341,7 @@ def check_solve(case):
                 else:
                     require(dtk.ndim == 0 and abs(float(dtk) - float(np.min(ref))) <= 1e-11 * float(np.min(ref)), "restart-dt-global",
                             "restart with CFL %g after a solve with CFL %g on the same solver: step %d receives dt=%r, expected %r" % (cfl2, case["cfl"], k, dtk.tolist(), float(np.min(ref))))
-    return dict(nontrivial=True, labels=["integ:" + case["integ"], "dtlocal" if case["dtlocal"] else "dtglobal", "model:" + md["name"], "prior:" + case.get("prior", "none")])
+    return dict(nontrivial=True, labels=["integ:" + case["integ"], "dtlocal" if case["dtlocal"] else "dtglobal", "model:" + md["name"], "prior:" + case.get("prior", "none")] + (["implicit-dtlocal-cellwise"] if cellwise else []))
 
 
 SUBCHECKS = [
